@@ -16,6 +16,13 @@ def cases(rng, tier):
                    "cat": ["absolute", "ordinal"][k % 2], "transform": ["rename_annotators", "rename_categories", "shift", "scale", "delta", "gamma_delta"][k % 6],
                    "seed": rng.randint(0, 10 ** 6)}
             k += 1
+    # a change of time unit (seconds -> hours, -> milliseconds, a power of two): positional weight > 0 so that positions matter
+    short = {"ann0": [[0.0, 1.0, "a"], [5.0, 6.0, "b"], [10.0, 12.0, "a"]], "ann1": [[0.5, 1.5, "a"], [5.0, 7.0, "b"], [11.0, 12.0, "a"]],
+             "ann2": [[0.0, 2.0, "a"], [6.0, 7.0, "b"]]}           # units of one or two seconds: after the change of unit every duration is tiny
+    for spec in [short] + common.grid_continua(rng, 3, 3, 40, ["a", "b", "c"], allow_empty=False, count=1 if tier == "quick" else 4):
+        for f in (2.0 ** -12, 1.0 / 3600.0, 1000.0):
+            yield {"continuum": spec, "alpha": 1.0, "beta": rng.choice([0.0, 1.0]), "delta": 1.0, "cat": "absolute", "transform": "scale",
+                   "scale_factor": f, "seed": rng.randint(0, 10 ** 6)}
 
 
 def make(inp, spec, delta, labels):
@@ -49,7 +56,7 @@ def check(inp):
         s = rng.choice([-17.0, 3.5, 1000.0])
         spec2 = {a: [[u[0] + s, u[1] + s, u[2]] for u in us] for a, us in spec.items()}
     elif t == "scale":
-        k = rng.choice([0.5, 2.0, 8.0])
+        k = inp.get("scale_factor") or rng.choice([0.5, 2.0, 8.0])
         spec2 = {a: [[u[0] * k, u[1] * k, u[2]] for u in us] for a, us in spec.items()}
     elif t in ("delta", "gamma_delta"):
         factor = rng.choice([0.5, 2.0, 4.0])
